@@ -36,6 +36,10 @@ type World struct {
 
 	declOnce sync.Once
 	decls    map[*types.Func]*FuncInfo
+
+	// Alias maps "rel|recv|name" of a private function that no longer exists under that name
+	// to the declaration that plays its role (filled by the rules' role finders)
+	Alias map[string]*FuncInfo
 }
 
 // FuncInfo ties a declared function to its syntax and package.
@@ -208,6 +212,9 @@ func (w *World) Func(rel, recv, name string) *FuncInfo {
 	}
 	f, _ := obj.(*types.Func)
 	if f == nil {
+		if a := w.Alias[rel+"|"+recv+"|"+name]; a != nil {
+			return a
+		}
 		return nil
 	}
 	return w.DeclOf(f)
